@@ -22,7 +22,7 @@ func init() {
 		Real:           []string{"glow codecs and secp256k1", "server report handler (parse, verify, window checks, integrate, persist)", "server HTTP handlers (stats, recent reports)", "TCP sync handler", "background loops", "real files on tmpfs"},
 		Stub:           []string{"UDP socket read loop (modelled: leading 80 bytes of datagrams >= 80 bytes)", "HTTP/TCP accept loops"},
 		Assumptions:    []string{"fresh ids always carry fresh keys"},
-		RequiredProbes: []string{"c02.equivocation", "c02.over-capacity", "c02.replay", "c02.resigned", "c02.negative", "c02.late-restart", "c02.mid-run-reads"},
+		RequiredProbes: []string{"c02.equivocation", "c02.over-capacity", "c02.replay", "c02.resigned", "c02.negative", "c02.late-restart", "c02.mid-run-reads", "c02.sentinel-reading"},
 		RequiredSites:  []string{"report.after-write", "report.before-write"},
 	})
 }
@@ -80,6 +80,12 @@ func runC02(m *Sim) {
 			v := vals[m.C.Int("value", len(vals))]
 			if v == 0 || v == 1 {
 				v = 2
+			}
+			if m.C.Chance("sentinel-reading", 1, 10) {
+				// Genuinely signed reports whose reading is one of the two reserved
+				// values (0 = empty, 1 = banned): refused, now and after a restart.
+				v = uint64(m.C.Int("sentinel", 2))
+				m.Probe("c02.sentinel-reading")
 			}
 			r := SignedReport(d.Key, d.ID, slot, v)
 			if k := m.C.Int("nonce", 3); k > 0 {
